@@ -249,6 +249,10 @@ func sanitize(s string) string {
 	return string(b)
 }
 
+// RunBody runs a body with the case-end handling and cleanups of a generated case
+// (for pinned demonstrations that build their own contexts).
+func (c *Ctx) RunBody(body func(c *Ctx)) { c.runBody(body) }
+
 func (c *Ctx) runBody(body func(c *Ctx)) {
 	defer func() {
 		for i := len(c.cleanup) - 1; i >= 0; i-- {
